@@ -51,7 +51,15 @@ def ft_arg(q):
 
 
 def execute(db, q):
-    """run one query through the API form it names; returns ids in the order yielded"""
+    """run one query through the API form it names; returns ids in the order yielded (['<raised:Type>'] if the call raises: no stored feature
+    has such an id, so the judge reports the query as incomplete)"""
+    try:
+        return _execute(db, q)
+    except Exception as e:  # noqa
+        return ["<raised:%s>" % type(e).__name__]
+
+
+def _execute(db, q):
     from gffutils.feature import Feature
     w = q["within"]
     strand = q["strand"] or None
